@@ -164,6 +164,21 @@ def run(check):
             t.fields[f_soft] = Opt(val[f_soft], False)
         gs.append({"program": Program([g_, t], outs, C07_INPUT),
                    "shape": "two-tagged-fields-of-one-stage/%s+%s" % (f_wait, f_soft)})
+    # texts in which the value of one key is spelled like a sibling key (in outputs, step inputs and the step itself): which of
+    # the two comes first in the text must not matter
+    for k in range(check.pick(6, 24)):
+        rng = random.Random(derive_seed(check.seed, "c16-keylike", k))
+        a = gen.plugin_step("a", "n", extra_input={"n": Expr(In("n")), "a": {"x": "y", "y": Expr(In("tag")), "z": "x"}})
+        b = gen.plugin_step("b", gen.tagref("a"), extra_input={"a": {"first": "second", "second": gen.tagref("a"), "third": "first"}})
+        outs = {"success": {"note": "result", "result": gen.tagref("b"), "other": "note", "b": "a", "a": gen.tagref("a")}}
+        if k % 2:
+            outs["success"] = dict(reversed(list(outs["success"].items())))
+            a.fields["input"]["a"] = dict(reversed(list(a.fields["input"]["a"].items())))
+        if k % 3 == 0:
+            outs["other"] = {"success": "other", "v": "success", "w": Expr(Ref("a", "outputs", "error", "reason"))}
+        steps = [a, b]
+        rng.shuffle(steps)
+        gs.append({"program": Program(steps, outs, gen.BASE_INPUT), "shape": "values-spelled-like-sibling-keys"})
     items, idx = [], 0
     for gi, g in enumerate(gs):
         prog = g["program"]
@@ -189,6 +204,22 @@ def run(check):
         a1 = gen.plugin_step("a", Expr(In("tag")))
         a2 = gen.plugin_step("b", gen.tagref("a"), stop_if=Expr(Ref("a", "outputs", "error")))
         pa = Program([a1, a2], {"success": {"b": gen.tagref("b")}}, gen.BASE_INPUT)
+        if k % 3 == 1:
+            # A loops over sub.yaml; B is a tree whose sub.yaml (same name) is refused during its preparation
+            def looptree(bad):
+                sub = gen.sub_program("sub.yaml", 1)
+                if bad == "dangling":
+                    sub.outputs["success"] = {"t": Expr(Ref("nosuchstep", "outputs", "success", "tag"))}
+                elif bad == "illtyped":
+                    sub.steps[0].fields["input"]["n"] = "notanint"
+                elif bad == "no-success":
+                    sub.outputs = {"done": sub.outputs["success"]}
+                return Program([Step("loop", "foreach", sub=sub, items=Expr(In("items")))], {"success": {"d": Expr(Ref("loop", "outputs", "success", "data"))}}, gen.BASE_INPUT)
+            bad = ["dangling", "illtyped", "no-success"][(k // 3) % 3]
+            pa, pb, scripts, what = looptree(None), looptree(bad), {}, "refused-sub-workflow-of-the-same-name:" + bad
+            seq = [{"files": pa.files(), "input": None}, {"files": pb.files(), "input": None}, {"files": pa.files(), "input": None}]
+            hist.append(({"id": "c16-h%04d" % k, "mode": "seq", "files": {}, "scripts": scripts, "runs": [], "extra": {"sequence": seq}, "no_events": True}, what))
+            continue
         if k % 3 == 0:
             h = gen.plugin_step("h", Expr(In("tag")), schema="nocancel")
             pb = Program([h], {"success": {"h": gen.tagref("h")}}, gen.BASE_INPUT)
